@@ -533,6 +533,36 @@ def header_job(prop, tier, seed):
             obs = '%s: %s' % (type(e).__name__, e)
         if not ok:
             fails.append({'replay': 'none', 'key': 'csvwidth:' + q.replace(' ', '_'), 'query': q, 'expected': 'header width == record width%s' % ('' if want_hdr is None else ', header %r' % want_hdr), 'observed': obs})
+    # WITH (header) / WITH (noheader) overrides the caller's flag before the header is derived (C07, C09)
+    for flag in (True, False):
+        for modifier in (None, 'header', 'noheader', 'headers', 'noheaders'):
+            for q0, kind in (('select a1, a2', 'cols'), ('select *', 'star'), ('update a2 = "k"', 'update'), ('select a2 as z, a1', 'alias')):
+                n += 1
+                q = q0 + (' with (%s)' % modifier if modifier else '')
+                eff = flag if modifier is None else modifier.startswith('header')
+                src = 'n1,n2\nx,1\ny,2\n'
+                it = rbql_csv.CSVRecordIterator(io.StringIO(src), None, ',', 'quoted', has_header=flag)
+                outs = io.StringIO()
+                w = rbql_csv.CSVWriter(outs, False, None, ',', 'quoted')
+                try:
+                    eng.query(q, it, w, [])
+                    lines = outs.getvalue().strip('\n').split('\n')
+                except Exception as e:
+                    lines = ['%s: %s' % (type(e).__name__, e)]
+                data = [['x', '1'], ['y', '2']] if eff else [['n1', 'n2'], ['x', '1'], ['y', '2']]
+                if kind == 'update':
+                    rows = [[r[0], 'k'] for r in data]
+                elif kind == 'alias':
+                    rows = [[r[1], r[0]] for r in data]
+                else:
+                    rows = data
+                if eff:
+                    hdr = {'cols': ['n1', 'n2'], 'star': ['n1', 'n2'], 'update': ['n1', 'n2'], 'alias': ['z', 'n1']}[kind]
+                else:
+                    hdr = ['z', 'col2'] if kind == 'alias' else None
+                exp_lines = ([','.join(hdr)] if hdr else []) + [','.join(r) for r in rows]
+                if lines != exp_lines:
+                    fails.append({'replay': 'none', 'key': 'with:%s:%s:%s' % (flag, modifier, kind), 'query': q, 'caller_flag': flag, 'expected': exp_lines, 'observed': lines})
     return {'job': 'output_header', 'evaluations': n, 'distinct_nontrivial': len(lists), 'exhaustive': tier != 'quick',
             'rule': 'select lists of 1-2 items (+1 join item) over 22 item kinds (aN, a[N], a.name, a["name"], bare names, expressions with commas/calls/literals, aliases on or/not/if-else expressions in both cases, star forms, out-of-range fields) x header on/off x join on/off: output_column_names vs the naming rule and record width; header width == record width through CSVWriter for DISTINCT COUNT, EXCEPT, aggregates, UPDATE, TOP',
             'failures': fails, 'samples': ['select a1 or a2 as x, a[2]']}
